@@ -6,7 +6,9 @@ import re
 
 import verif
 
-RULE = ("plus an end-to-end stage: the real startPort/PacketScanEngine on a veth pair in a private network namespace (real "
+RULE = ("plus a CLI stage: every packet-scan command line (tcp, tcp --flags <several lists incl. the lone syn>, tcp syn/fin/null/"
+        "xmas, udp, icmp, arp; tcp/udp/icmp also in VPN mode on a tun device) run in-process through its real cobra RunE "
+        "in the namespace, JSON stdout as observation; plus an end-to-end stage: the real startPort/PacketScanEngine on a veth pair in a private network namespace (real "
         "AF_PACKET socket, the filter the engine installs, kernel BPF), frames injected on the peer, records taken from the "
         "engine's logger; "
         "accepted frames are cut to the length the compiled program returns (the snapshot length, as the kernel does) and "
@@ -21,6 +23,39 @@ RULE = ("plus an end-to-end stage: the real startPort/PacketScanEngine on a veth
 
 CLASS = {"tcp syn": "syn", "tcp --flags": "tcp", "tcp fin": "tcp", "tcp null": "tcp", "tcp xmas": "tcp",
          "udp": "icmp", "icmp": "icmp", "arp": "arp"}
+# command lines run through the real cobra RunE in the CLI stage, with the scan each one IS according to the tool's own
+# documentation and the property: name, argv, frame generator (0 tcp any flags, 1 SYN+ACK centred, 2 icmp, 3 arp), takes -p,
+# scan class, prints flags, scan label
+CLI = [
+    ("tcp", ["tcp"], 1, True, "syn", False, "tcpsyn"),
+    ("tcp --flags syn", ["tcp", "--flags", "syn"], 0, True, "tcp", True, "tcpflags"),
+    ("tcp --flags SYN", ["tcp", "--flags", "SYN"], 0, True, "tcp", True, "tcpflags"),
+    ("tcp --flags syn,ack", ["tcp", "--flags", "syn,ack"], 0, True, "tcp", True, "tcpflags"),
+    ("tcp --flags fin", ["tcp", "--flags", "fin"], 0, True, "tcp", True, "tcpflags"),
+    ("tcp --flags ack,psh,urg", ["tcp", "--flags", "ack,psh,urg"], 0, True, "tcp", True, "tcpflags"),
+    ("tcp syn", ["tcp", "syn"], 1, True, "syn", False, "tcpsyn"),
+    ("tcp fin", ["tcp", "fin"], 0, True, "tcp", True, "tcpfin"),
+    ("tcp null", ["tcp", "null"], 0, True, "tcp", True, "tcpnull"),
+    ("tcp xmas", ["tcp", "xmas"], 0, True, "tcp", True, "tcpxmas"),
+    ("udp", ["udp"], 2, True, "icmp", True, "udp"),
+    ("icmp", ["icmp"], 2, False, "icmp", True, "icmp"),
+    ("arp", ["arp"], 3, False, "arp", True, None),
+]
+CLI_VPN = ["tcp", "tcp --flags syn", "tcp fin", "udp", "icmp"]
+
+
+def cli_cases():
+    out = []
+    for name, argv, flt, ports, cls, af, scan in CLI:
+        out.append({"name": name, "argv": argv, "filter": flt, "ports": ports, "tun": False})
+    for name, argv, flt, ports, cls, af, scan in CLI:
+        if name in CLI_VPN:
+            out.append({"name": name, "argv": argv, "filter": flt, "ports": ports, "tun": True})
+    return out
+
+
+CLI_SPEC = {name: (cls, af, scan) for name, argv, flt, ports, cls, af, scan in CLI}
+
 LETTERS = [(1, "s"), (4, "a"), (0, "f"), (2, "r"), (3, "p"), (5, "u"), (6, "e"), (7, "c"), (8, "n")]
 
 
@@ -108,7 +143,7 @@ def wf_and_shape(cls, raw, subnet, ports, f):
 
 
 def judge(case, fo, allflags):
-    cls = CLASS.get(case["cmd"])
+    cls = case.get("cls") or CLASS.get(case["cmd"])
     if cls is None:
         return ("unknown-command:" + case["cmd"], "the command %r is not one of the packet scans of the property" % case["cmd"])
     f = bytes.fromhex(fo["frame"])
@@ -142,6 +177,9 @@ def judge(case, fo, allflags):
             got.update(mac=fo.get("mac", ""))
         if got != exp:
             return ("unfaithful:" + cls, "the record %s does not carry the frame's own fields %s" % (got, exp))
+        if case.get("scan") and fo.get("scan") != case["scan"]:
+            return ("wrong-scan:" + case["cmd"], "`sx %s` reports the frame as scan %r, it is the %r scan" % (
+                case["cmd"], fo.get("scan"), case["scan"]))
         if cls == "arp" and not fo.get("vendor_ok", True):
             return ("unfaithful:arp-vendor", "the vendor %r is not the OUI table's entry for the sender MAC %s of the frame" % (
                 fo.get("vendor", ""), fo.get("mac", "")))
@@ -206,7 +244,7 @@ def run_cases(ctx, ins, tag):
     return ctx.read_jsonl(os.path.join(ctx.work, tag + ".jsonl")) if ok else []
 
 
-def run_e2e(ctx, args, tag):
+def run_e2e(ctx, args, tag, cli=False):
     """End-to-end stage: the real startPort/PacketScanEngine on a veth pair in a private network namespace (real AF_PACKET
     source, the filter the engine installs, the kernel's BPF interpreter and snapshot cut). Returns case rows."""
     if not os.path.exists(os.path.join(verif.REPO, "command", "verif_export_c03.go")):
@@ -220,11 +258,17 @@ def run_e2e(ctx, args, tag):
              ["ip", "netns", "exec", ns, "sysctl", "-qw", "net.ipv6.conf.all.disable_ipv6=1", "net.ipv6.conf.default.disable_ipv6=1"],
              ["ip", "-n", ns, "link", "set", "lo", "up"], ["ip", "-n", ns, "link", "set", "vc3a", "up"],
              ["ip", "-n", ns, "link", "set", "vc3b", "up"]]
+    if cli:
+        # the command lines need an interface address; VPN mode runs on a tun device
+        setup += [["ip", "-n", ns, "addr", "add", "10.203.7.1/24", "dev", "vc3a"],
+                  ["ip", "-n", ns, "tuntap", "add", "dev", "vc3t", "mode", "tun"],
+                  ["ip", "-n", ns, "addr", "add", "10.204.7.1/24", "dev", "vc3t"],
+                  ["ip", "-n", ns, "link", "set", "vc3t", "up"]]
     rows = []
     try:
         for c in setup:
             rc, out = verif.sh(c, timeout=30)
-            if rc != 0 and "sysctl" not in c:
+            if rc != 0 and "sysctl" not in c and "tuntap" not in c and "vc3t" not in c:
                 ctx.skipped.append("e2e stage: cannot set up a network namespace (%s): %s" % (" ".join(c[:4]), out.strip()[:120]))
                 return []
         out_file = os.path.join(ctx.work, tag + ".jsonl")
@@ -243,9 +287,15 @@ def run_e2e(ctx, args, tag):
 def judge_e2e(ctx, rows, af, seen):
     for c in rows:
         c.setdefault("raw_source", False)
+        if c["cmd"] in CLI_SPEC and c.get("w") == -1:
+            c["cls"], c["allflags"], c["scan"] = CLI_SPEC[c["cmd"]]
+            c["cli"] = True
+        if (c.get("err") or "").startswith("skip:"):
+            ctx.skipped.append("CLI stage, `sx %s`%s: %s" % (c["cmd"], " (VPN)" if c.get("vpn") else "", c["err"]))
+            continue
         if c.get("err") in ("sentinel-not-reported", "second-sentinel-not-reported"):
             fo = {"frame": c["sentinel"], "class": "to-scanning-host", "vm": False, "record": False, "n": 0}
-            report(ctx, c, fo, ("missed:e2e:" + CLASS.get(c["cmd"], "?"),
+            report(ctx, c, fo, ("missed:e2e:" + (c.get("cls") or CLASS.get(c["cmd"], "?")),
                                 "%s scan of %s ports %s (source %s) on a real AF_PACKET socket never reports a plain reply-shaped frame "
                                 "addressed to the scanning host" % (c["cmd"], c["subnet"] or "any", c["ports"][:3], c["srcip"])), seen)
             continue
@@ -257,13 +307,16 @@ def judge_e2e(ctx, rows, af, seen):
         for fo in c["frames"]:
             if not fo["sent"]:
                 continue
-            wf = wf_and_shape(CLASS.get(c["cmd"], "tcp"), False, (c["net"], c["bits"]) if c["subnet"] else None,
+            wf = wf_and_shape(c.get("cls") or CLASS.get(c["cmd"], "tcp"), bool(c.get("vpn")) and c.get("cls") != "arp",
+                              (c["net"], c["bits"]) if c["subnet"] else None,
                               [tuple(p) for p in c["ports"]], bytes.fromhex(fo["frame"]))[0]
-            ctx.count("e2e/%s/%s/%s" % (c["cmd"], fo["class"], "reported" if fo["record"] else "not-reported"),
+            ctx.count("%s/%s%s/%s/%s" % ("cli" if c.get("cli") else "e2e", c["cmd"], "/vpn" if c.get("vpn") else "", fo["class"], "reported" if fo["record"] else "not-reported"),
                       hashlib.md5(("e2e" + c["cmd"] + c["text"] + fo["frame"]).encode()).digest(), nontrivial=wf)
-            why = judge(c, fo, af.get(c["cmd"], True))
+            why = judge(c, fo, c["allflags"] if c.get("cli") else af.get(c["cmd"], True))
             if why:
-                report(ctx, c, fo, (why[0].replace(":", ":e2e:", 1), "[end-to-end, kernel filter] " + why[1]), seen)
+                tag = "cli" if c.get("cli") else "e2e"
+                pre = "[real command line `%s`] " % c["text"] if c.get("cli") else "[end-to-end, kernel filter] "
+                report(ctx, c, fo, (why[0].replace(":", ":%s:" % tag, 1) + (":vpn" if c.get("cli") and c.get("vpn") else ""), pre + why[1]), seen)
 
 
 def report(ctx, case, fo, why, seen):
@@ -283,6 +336,8 @@ def report(ctx, case, fo, why, seen):
            "subnet": case["subnet"], "ports": case["ports"], "frames": frames}
     if case.get("e2e"):
         inp["e2e"] = True
+    if case.get("cli"):
+        inp["cli"] = {"name": case["cmd"], "tun": bool(case.get("vpn"))}
     path = ctx.write_replay(re.sub(r"\W+", "-", key), {
         "property": "C03", "what": reason, "input": inp, "filter_text": case["text"], "observed": fo,
         "replay_cmd": "bin/check C03 --replay <this file>"})
@@ -351,7 +406,12 @@ def run(ctx):
             if why:
                 report(ctx, c, fo, why, seen)
     if ws and os.path.exists(os.path.join(verif.HBIN, "c03")):
-        judge_e2e(ctx, run_e2e(ctx, ["-seed", ctx.seed, "-n", 8 if quick else 96, "-per", 8], "e2e"), af, seen)
+        judge_e2e(ctx, run_e2e(ctx, ["-seed", ctx.seed, "-n", 4 if quick else 96, "-per", 8], "e2e"), af, seen)
+        # every packet-scan command line through its real RunE, Ethernet and VPN (tun) mode
+        cli_file = os.path.join(ctx.work, "cli.in.json")
+        with open(cli_file, "w") as f:
+            json.dump(cli_cases() * (1 if quick else 6), f)
+        judge_e2e(ctx, run_e2e(ctx, ["-seed", ctx.seed, "-cli", cli_file], "cli", cli=True), af, seen)
     for k, n in seen.items():
         if n > 1:
             ctx.info.append("%d more frames show %s" % (n - 1, k))
@@ -408,6 +468,21 @@ def replay(ctx, path):
     ws = prepare(ctx)
     i = r["input"]
     w = [k for k, x in enumerate(ws) if x["cmd"] == i["cmd"]]
+    if i.get("cli"):
+        spec = [c for c in cli_cases() if c["name"] == i["cli"]["name"] and c["tun"] == i["cli"]["tun"]]
+        path2 = os.path.join(ctx.work, "cli-replay.in.json")
+        with open(path2, "w") as f:
+            json.dump([dict(spec[0], subnet=i["subnet"], portlist=i["ports"], frames=i["frames"])], f)
+        rows = run_e2e(ctx, ["-cli", path2], "cli-replay", cli=True)
+        seen = {}
+        judge_e2e(ctx, rows, {}, seen)
+        for fd in ctx.findings:
+            print("cli replay: " + fd["what"])
+        for b in ctx.broken + [(s_, "") for s_ in ctx.skipped]:
+            print("cli replay: " + b[0])
+        rc = 1 if ctx.findings or ctx.broken else 0
+        print("replay: " + ("the property FAILS on this input" if rc else "the property holds on this input"))
+        return rc
     if i.get("e2e"):
         path2 = os.path.join(ctx.work, "e2e-replay.in.json")
         with open(path2, "w") as f:
